@@ -633,7 +633,7 @@ def conclude(prop, tier, seed, res, wall):
         verdict="violated" if new else ("inconclusive" if res["inconclusive"] else "held on what was observed"),
     )
     os.makedirs(EVIDENCE, exist_ok=True)
-    if not ALT:
+    if not ALT and not os.environ.get("VERIF_ONLY_JOBS"):
         with open(os.path.join(EVIDENCE, f"{prop}.json"), "w") as f:
             json.dump(evidence, f, indent=1, sort_keys=True)
     else:
